@@ -132,9 +132,27 @@ class SimFS:
         """Is this path part of the simulated world (else the real file system answers)?"""
         return isinstance(p, str) and (p.startswith(SIM_ROOT) or p in self.files or p in self.dirs or p in self.faults)
 
+    def children(self, d):
+        """Names directly under the simulated directory d (files and sub-directories)."""
+        d = self.canon(d).rstrip("/") + "/"
+        out = {}
+        for f in self.files:
+            if isinstance(f, str) and f.startswith(d):
+                rest = f[len(d):]
+                if rest:
+                    name, sep, _ = rest.partition("/")
+                    out[name] = bool(sep) or out.get(name, False)
+        return out  # name -> is_dir
+
+    def is_sim_dir(self, p):
+        p = self.canon(p).rstrip("/")
+        return p + "/" == SIM_ROOT or bool(p.startswith(SIM_ROOT) and self.children(p))
+
     def stat(self, p):
         import stat as _stat
         p = self.canon(p)
+        if p not in self.files and p not in self.dirs and isinstance(p, str) and p.startswith(SIM_ROOT[:-1]) and self.is_sim_dir(p):
+            return _real_os.stat_result((_stat.S_IFDIR | 0o755, 1, 1, 1, 0, 0, 4096, 0, 0, 0))
         if p in self.dirs:
             return _real_os.stat_result((_stat.S_IFDIR | 0o755, 1, 1, 1, 0, 0, 4096, 0, 0, 0))
         if p in self.files and self.faults.get(p) != "ENOENT":
@@ -429,6 +447,79 @@ def install():
     builtins.open = global_open
     io.open = global_open
     _real_os.stat = global_stat
+
+    # directory listing of the simulated tree (glob, os.walk, pathlib.iterdir of code under test)
+    real_lstat, real_listdir, real_scandir = _real_os.lstat, _real_os.listdir, _real_os.scandir
+
+    class _SimEntry:
+        def __init__(self, d, name, is_dir):
+            self.name, self.path, self._d = name, d.rstrip("/") + "/" + name, is_dir
+
+        def is_dir(self, follow_symlinks=True):
+            return self._d
+
+        def is_file(self, follow_symlinks=True):
+            return not self._d
+
+        def is_symlink(self):
+            return False
+
+        def stat(self, follow_symlinks=True):
+            return global_stat(self.path)
+
+        def __fspath__(self):
+            return self.path
+
+    class _SimScan:
+        def __init__(self, entries):
+            self._it = iter(entries)
+
+        def __iter__(self):
+            return self._it
+
+        def __next__(self):
+            return next(self._it)
+
+        def __enter__(self):
+            return self
+
+        def __exit__(self, *a):
+            return False
+
+        def close(self):
+            pass
+
+    def _sim_dir(path):
+        env = ENV
+        if env is None:
+            return None
+        p = _fspath(path)
+        if p is None or not p.startswith(SIM_ROOT[:-1]):
+            return None
+        return p
+
+    def global_lstat(path, *a, **k):
+        return global_stat(path, *a, **k) if _sim_dir(path) is not None or (ENV is not None and _fspath(path) is not None and ENV.fs.owns(_fspath(path))) else real_lstat(path, *a, **k)
+
+    def global_listdir(path="."):
+        p = _sim_dir(path)
+        if p is None:
+            return real_listdir(path)
+        if not ENV.fs.is_sim_dir(p):
+            raise FileNotFoundError(errno.ENOENT, "No such file or directory", p)
+        return sorted(ENV.fs.children(p))
+
+    def global_scandir(path="."):
+        p = _sim_dir(path)
+        if p is None:
+            return real_scandir(path)
+        if not ENV.fs.is_sim_dir(p):
+            raise FileNotFoundError(errno.ENOENT, "No such file or directory", p)
+        return _SimScan([_SimEntry(p, n, d) for n, d in sorted(ENV.fs.children(p).items())])
+
+    _real_os.lstat = global_lstat
+    _real_os.listdir = global_listdir
+    _real_os.scandir = global_scandir
 
     info["gate"] = GATE
     INSTALLED.update(info)
